@@ -2,24 +2,24 @@
    Only pinned statements, [exact] proofs and [Print Assumptions].
    Codec models: coq/Ser.v (type-directed JSON and postcard encoders / decoders over the value
    universe of Codec.v: integers of every width, bool, unit, Option, arrays, tuples, strings of
-   plain characters incl. non-ASCII, string tags); tree level: coq/Codec_tree.v over Tree.run.
-   Floats, serde structs and serde enums are outside the model (DESIGN.md: decided on the
-   implementation only). *)
+   plain characters incl. non-ASCII, string tags, serde unit-variant enums, nested serde structs);
+   tree level: coq/Codec_tree.v over Tree.run.  Floats are outside the model (DESIGN.md: decided
+   on the implementation only). *)
 From Coq Require Import List NArith ZArith Bool.
 From MC Require Import Str Codec Ser Ser_proofs Tree Tree_proofs Codec_tree.
 Import ListNotations.
 Local Open Scope N_scope.
 
 (* JSON: decoding what was encoded gives the value back and stops exactly behind it *)
-Theorem C05_json_roundtrip : forall t v rest, has_ty t v = true -> ok_rest rest -> jdec t (jenc v ++ rest) = Some (v, rest).
+Theorem C05_json_roundtrip : forall t v rest, has_ty t v = true -> ok_rest rest -> jdec t (jenc_t t v ++ rest) = Some (v, rest).
 Proof. exact jdec_roundtrip. Qed.
 (* the helpers: what get produced is accepted by set, which consumes exactly that many bytes and
    decodes the same value; the byte count is exact and within the buffer *)
-Theorem C05_json_set_get : forall t v cap b, has_ty t v = true -> json_get cap v = Some b ->
-  json_set t b = SetOk v (N.of_nat (length b)) /\ b = jenc v /\ N.of_nat (length b) <= cap.
+Theorem C05_json_set_get : forall t v cap b, has_ty t v = true -> json_get t cap v = Some b ->
+  json_set t b = SetOk v (N.of_nat (length b)) /\ b = jenc_t t v /\ N.of_nat (length b) <= cap.
 Proof. exact json_set_get. Qed.
 (* a buffer that is too small is an error, never a partial success *)
-Theorem C05_json_get_small : forall cap v, cap < N.of_nat (length (jenc v)) -> json_get cap v = None.
+Theorem C05_json_get_small : forall t cap v, cap < N.of_nat (length (jenc_t t v)) -> json_get t cap v = None.
 Proof. exact json_get_small. Qed.
 (* postcard: the same, with any trailing bytes returned as the remainder *)
 Theorem C05_postcard_roundtrip : forall t v rest, has_ty t v = true -> pdec t (penc t v ++ rest) = Some (v, rest).
@@ -58,8 +58,20 @@ Proof. reflexivity. Qed.
 Example C05_ex :
   let t := TTup [TInt I16; TOpt (TInt U8); TArr 2 TBool; TStr 8; TTag; TUnit] in
   let v := LArr [LInt (-300); LOpt (Some (LInt 7)); LArr [LBool true; LBool false]; LStr [104; 233]; LTag 1; LUnit] in
-  has_ty t v = true /\ json_set t (jenc v) = SetOk v 37 /\
+  has_ty t v = true /\ json_set t (jenc_t t v) = SetOk v 37 /\
   penc t v = [215; 4; 1; 7; 1; 0; 3; 104; 195; 169; 2; 66; 98] /\ postcard_set t (penc t v ++ [9]) = Some (v, [9]).
+Proof. vm_compute. repeat split; reflexivity. Qed.
+
+(* serde structs and enums: JSON object in declaration order / variant name, postcard concatenation / index *)
+Example C05_ex_struct :
+  let mode := TEnum [[79; 102; 102]; [83; 108; 111; 119]; [70; 97; 115; 116]] in
+  let t := TStruct [([120], TInt I16); ([111; 110], TBool); ([110; 97; 109; 101], TStr 6);
+                    ([105; 110; 110; 101; 114], TStruct [([107], TOpt (TInt U8)); ([109], mode)])] in
+  let v := LArr [LInt (-2); LBool true; LStr [233]; LArr [LOpt None; LTag 2]] in
+  has_ty t v = true /\
+  jenc_t t v = [123; 34; 120; 34; 58; 45; 50; 44; 34; 111; 110; 34; 58; 116; 114; 117; 101; 44; 34; 110; 97; 109; 101; 34; 58; 34; 195; 169; 34; 44;
+                34; 105; 110; 110; 101; 114; 34; 58; 123; 34; 107; 34; 58; 110; 117; 108; 108; 44; 34; 109; 34; 58; 34; 70; 97; 115; 116; 34; 125; 125] /\
+  json_set t (jenc_t t v) = SetOk v 60 /\ penc t v = [3; 1; 2; 195; 169; 0; 2] /\ postcard_set t (penc t v) = Some (v, []).
 Proof. vm_compute. repeat split; reflexivity. Qed.
 
 Print Assumptions C05_json_roundtrip.
